@@ -594,6 +594,9 @@ def to_compartmental_system(names, eqs: Sequence[sympy.Eq]) -> CompartmentalSyst
                     # compartments or not
                     if _is_positive(term):
                         for eq_2 in eqs:
+                            # A first order flow leaves the compartment whose amount it depends on
+                            if eq_2.lhs.args[0] != comp_func:  # pyright: ignore
+                                continue
                             if -term in sympy.Add.make_args(eq_2.rhs.expand()):  # pyright: ignore
                                 from_comp = compartments[names[Expr(eq_2.lhs.args[0])]]
                                 to_comp = compartments[names[Expr(eq.lhs.args[0])]]
